@@ -41,8 +41,7 @@ int main(void)
       dvector *a = rd_dvector(), *b = rd_dvector(); matrix *m;
       NewMatrix(&m, a->size, b->size);
       RowColOuterProduct(a, b, m); pr_matrix("m", m);
-      if(b->size >= a->size){ /* F16: the MISSING test reads v2[i], i < |v1| */
-        matrix *m2; NewMatrix(&m2, a->size, b->size);
+      { matrix *m2; NewMatrix(&m2, a->size, b->size);
         DVectorTrasposedDVectorDotProduct(a, b, m2); pr_matrix("m2", m2); DelMatrix(&m2);
       }
       DelMatrix(&m); DelDVector(&a); DelDVector(&b);
